@@ -262,14 +262,14 @@ def corpus():
 def gen(ctx):
     rng = ctx.rng
     out = corpus()
-    n_random = 700 if ctx.tier == "quick" else 12000
+    n_random = 700 if ctx.tier == "quick" else 40000
     hows = list(HOWS)
     for _ in range(n_random):
         out.append((rng.choice(hows) if rng.random() < 0.4 else "find", gen_tree(rng, rng.choice([1, 2, 3, 3, 4, 5]))))
     if ctx.tier == "thorough":
         import itertools
         vals = [""]
-        for ln in (1, 2, 3):
+        for ln in (1, 2, 3, 4):
             vals += ["".join(p) for p in itertools.product(SMALL, repeat=ln)]
         for v in vals:
             leaf = ("T", "n:Artist", "Equal", v)
@@ -411,7 +411,7 @@ def run(ctx, only=None):
         rule="corpus (the two D12 witnesses, boundary values, every operator, exists/absent, negate and !, and in left/right/balanced "
              "association through find/count/list/count-group), then random construction scripts of depth <= 5 and width <= 5 with "
              "values over the class alphabet (empty, blanks, tab, CR, both quotes, backslash, parentheses, AND, non-ASCII, control bytes, "
-             "LF/NUL); thorough adds every value of length <= 3 over 9 symbols as a leaf, under negation and inside an AND; "
+             "LF/NUL); thorough adds every value of length <= 4 over 9 symbols as a leaf, under negation and inside an AND; "
              "oracle = extracted MPD tokenizer + filter grammar on the implementation's bytes, compared with the script's mirror "
              "expression after flattening AND; non-trivial = a value that is empty or holds a blank, quote, backslash or parenthesis, or a "
              "script with negation/and",
